@@ -161,10 +161,13 @@ func (d *Dumper) ValueLit(in any, optFns ...ValueLitOptFn) string {
 	switch tpe.Kind() {
 	case reflect.Ptr:
 		kind := rv.Elem().Kind()
-		if _, ok := basicKinds[kind]; ok {
-			return fmt.Sprintf("func(v %s) *%s { return &v }(%s)", kind, kind, d.ValueLit(rv.Elem(), optFns...))
+		if _, ok := basicKinds[kind]; ok || kind == reflect.String {
+			// the pointee's own type, not its kind: *MyInt is not *int, and a string constant has no address either
+			elemType := d.ReflectTypeLit(tpe.Elem())
+			return fmt.Sprintf("func(v %s) *%s { return &v }(%s)", elemType, elemType, d.ValueLit(rv.Elem(), optFns...))
 		}
-		return fmt.Sprintf("&(%s)", d.ValueLit(rv.Elem(), optFns...))
+		// a composite literal is addressable, but only if it is written out: zero structs included
+		return fmt.Sprintf("&(%s)", d.ValueLit(rv.Elem(), append(optFns, SubValue(false))...))
 	case reflect.Struct:
 		buf := bytes.NewBufferString(d.ReflectTypeLit(tpe))
 		buf.WriteString(`{`)
